@@ -41,7 +41,7 @@ ADDRS = [0, 1, 0xC0, 0xDB, 0xDBDC, 0xC0DBDCDD, 0xDDDCDBC0, 0xffffffff, 0x1234567
 
 
 def theorem_for(d):
-    return "Ufw.Props.C08 (emit_wire / emit_recv / seq_step)"
+    return "Ufw.Props.C08 (*_wire / emit_recv / session_sequence)"
 
 
 def roundtrip():
